@@ -30,6 +30,7 @@ Le32(a, b) == a[1] < b[1] \/ (a[1] = b[1] /\ a[2] <= b[2])
 
 \* ---- cache lifetime (C08), in seconds, from the upstream's reply as the scripted server describes it
 Min2(a, b) == IF a < b THEN a ELSE b
+Max2(a, b) == IF a > b THEN a ELSE b
 SetMin(S) == CHOOSE x \in S : \A y \in S : x <= y
 RrTtls(u) == IF u.rcode = 0 /\ ~u.nodata THEN {u.ttls[i] : i \in 1..Len(u.ttls)}
              ELSE IF u.soa THEN {u.ttl} ELSE {}
